@@ -189,7 +189,12 @@ class BaseResampler(metaclass=ABCGoogleDocstringInheritanceMeta):
             The new machine learning model.
         """
         sub_model = model.__class__(model.learning_set, settings_model=model._settings)
-        sub_model.transformer = model.transformer
+        # The sub-model has its own copies of the (possibly fitted) transformers,
+        # so that fitting it does not change the original model.
+        sub_model.transformer = {
+            name: transformer.duplicate()
+            for name, transformer in model.transformer.items()
+        }
         return sub_model
 
     def _post_process_predictions(
